@@ -143,9 +143,11 @@ Proof.
     intros ep [X | X]; [discriminate | exfalso; eapply N; eauto]. }
   destruct (t =? c_typeStreamClose) eqn:T2.
   { unfold handle_stream_close. destruct (zlen buf <? streamCloseIdLen) eqn:L; [discriminate|].
-    destruct (half_close s (be32 buf 0)) as [s1 a1] eqn:HC. apply half_close_props in HC. destruct HC as [F N].
+    destruct (drain (s_queue s) (with_queue s [])) as [sq aq] eqn:D. apply drain_props in D. destruct D as [Fq Nq].
+    destruct (half_close sq (be32 buf 0)) as [s1 a1] eqn:HC. apply half_close_props in HC. destruct HC as [F N].
     intros E; inversion E; subst. ltb_cases. unfold c_headerSize, streamCloseIdLen in *.
-    split; [exact F|]. split; [|lia]. intros ep X. exfalso; eapply N; eauto. }
+    split; [eapply same_flags_trans; [apply Fq | exact F]|]. split; [|lia].
+    intros ep X. exfalso. apply in_app_or in X. destruct X; [eapply Nq | eapply N]; eauto. }
   destruct (t =? c_typeFallbackData) eqn:T3.
   { unfold handle_fallback.
     destruct (hdr_length h - c_headerSize <? fallbackDataHeader) eqn:L0.
@@ -156,18 +158,21 @@ Proof.
     destruct (hdr_length h - c_headerSize <? 4) eqn:L3; [discriminate|].
     destruct (hdr_length h - c_headerSize <? 8) eqn:L4; [discriminate|].
     set (data := firstn _ buf).
-    destruct (get_stream s (be32 data 0) (be32 data 4 mod 256)) as [[s1 found] a1] eqn:G.
+    destruct (drain (s_queue s) (with_queue s [])) as [sq aq] eqn:D. apply drain_props in D. destruct D as [Fq Nq].
+    assert (Fq' : same_flags s sq) by apply Fq.
+    destruct (get_stream sq (be32 data 0) (be32 data 4 mod 256)) as [[s1 found] a1] eqn:G.
     apply get_stream_props in G. destruct G as [F1 N1]. ltb_cases. unfold c_headerSize in *.
     destruct found.
     - destruct (stream_message s1 _ _ true _) as [s2 a2] eqn:SM. apply stream_message_props in SM.
       destruct SM as [F2 N2]. intros E; inversion E; subst.
-      split; [eapply same_flags_trans; eauto|]. split; [|lia].
+      split; [eapply same_flags_trans; [exact Fq'|]; eapply same_flags_trans; eauto|]. split; [|lia].
       intros ep X. exfalso. cbn [app] in X. destruct X as [X | X]; [discriminate|].
+      apply in_app_or in X. destruct X as [X | X]; [eapply Nq; eauto|].
       apply in_app_or in X. destruct X; [eapply N1 | eapply N2]; eauto.
     - intros E; inversion E; subst.
-      split; [exact F1|]. split; [|lia].
+      split; [eapply same_flags_trans; eauto|]. split; [|lia].
       intros ep X. exfalso. cbn [app] in X. destruct X as [X | X]; [discriminate|].
-      eapply N1; eauto. }
+      apply in_app_or in X. destruct X; [eapply Nq | eapply N1]; eauto. }
   destruct (t =? c_typeHotRestart) eqn:T4.
   { unfold handle_hot_restart. destruct (s_has_manager s) eqn:M; cbn [negb].
     2:{ intros E; inversion E; subst. unfold c_headerSize.
@@ -194,7 +199,8 @@ Proof.
   destruct (t =? c_typePolling).
   { unfold handle_polling. destruct (drain _ _). discriminate. }
   destruct (t =? c_typeStreamClose).
-  { unfold handle_stream_close. destruct (_ <? _); [discriminate|]. destruct (half_close _ _). discriminate. }
+  { unfold handle_stream_close. destruct (_ <? _); [discriminate|]. destruct (drain _ _).
+    destruct (half_close _ _). discriminate. }
   destruct (t =? c_typeFallbackData).
   { unfold handle_fallback.
     destruct (hdr_length h - c_headerSize <? fallbackDataHeader) eqn:L0; [discriminate|].
@@ -203,6 +209,7 @@ Proof.
     destruct (hdr_length h - c_headerSize <? 0) eqn:L2; [ltb_cases; lia|].
     destruct (hdr_length h - c_headerSize <? 4) eqn:L3; [ltb_cases; lia|].
     destruct (hdr_length h - c_headerSize <? 8) eqn:L4; [ltb_cases; lia|].
+    destruct (drain _ _) as [sq aq].
     destruct (get_stream _ _ _) as [[s1 found] a1]. destruct found.
     - destruct (stream_message _ _ _ _ _). discriminate.
     - discriminate. }
